@@ -503,6 +503,32 @@ class Models(object):
         return res
 
     def comprehension(self, ex, st, fr, node, gen, it, what):
+        # comprehension / generator over a python sequence of known length: element by element, in order
+        items = None
+        if isinstance(it, VTuple):
+            items = list(it.items)
+        elif isinstance(it, VList):
+            items = list(st.get(it, "items"))
+        if items is not None and what in ("gen", "list"):
+            outs = [(st, "ok", [])]
+            for item in items:
+                nxt = []
+                for (s, tag, acc) in outs:
+                    if tag != "ok":
+                        nxt.append((s, tag, acc))
+                        continue
+                    for (s1, t1, _) in ex.assign(gen.target, item, s, fr):
+                        for (s2, t2, v) in ex.eval(node.elt, s1, fr):
+                            nxt.append((s2, "ok", acc + [v]) if t2 == "ok" else (s2, t2, v))
+                outs = nxt
+            res = []
+            for (s, tag, acc) in outs:
+                if tag != "ok":
+                    res.append((s, tag, acc))
+                else:
+                    s, l = ex.new_list(s, acc)
+                    res.append((s, "ok", l))
+            return res
         raise Unsupported("comprehension over %r" % (it,))
 
 
@@ -541,6 +567,9 @@ def m_len(ex, st, fr, args, kwargs):
     if isinstance(v, VTuple):
         return [(st, "ok", VT(tm.I(len(v.items))))]
     if isinstance(v, VDict):
+        if st.get(v, "arr") is not None:
+            ex.used_models.add("D-DICT")
+            return [(st, "ok", VT(tm.app("card", INT, st.get(v, "arr").t)))]
         return [(st, "ok", VT(tm.I(len(st.get(v, "items")))))]
     if isinstance(v, VRepList):
         return [(st, "ok", VT(v.length))]
@@ -647,6 +676,9 @@ def m_enumerate(ex, st, fr, args, kwargs):
 
 def m_iter(ex, st, fr, args, kwargs):
     if len(args) == 1:
+        if isinstance(args[0], VDict):
+            o = VObj("dict_keyiterator")
+            return [(st.set(o, "dict", args[0]), "ok", o)]
         return [(st, "ok", args[0])]
     raise Unsupported("iter with sentinel")
 
@@ -717,18 +749,26 @@ def m_warn(ex, st, fr, args, kwargs):
 # ---------------------------------------------------------------------- str / list / dict methods
 def sm_format(ex, st, fr, self, args, kwargs):
     ex.used_models.add("D-FMT")
-    # exact for the patterns moclo uses on data: "{}" and "[{}]"-like templates with one string/int argument
-    if tm.is_const(self.t) and len(args) == 1 and not kwargs and tm.cval(self.t).count("{}") == 1 \
-            and tm.cval(self.t).count("{") == 1:
-        a = args[0]
-        pre, post = tm.cval(self.t).split("{}")
-        if isinstance(a, VT) and a.t.sort == STR:
-            return [(st, "ok", VT(tm.concat(pre, a.t, post)))]
-        if isinstance(a, VT) and a.t.sort == INT:
-            outs = m_str(ex, st, fr, [a], {})
-            return [(s, "ok", VT(tm.concat(pre, v.t, post))) for (s, _, v) in outs]
-        if isinstance(a, VObj) and a.kind == "Seq":
-            return [(st, "ok", VT(tm.concat(pre, ex.models.seq_text(st, a), post)))]
+    # exact for templates made of plain text and positional "{}" fields with str / int / Seq arguments
+    if tm.is_const(self.t) and not kwargs:
+        tpl = tm.cval(self.t)
+        parts = tpl.split("{}")
+        if len(parts) == len(args) + 1 and "{" not in "".join(parts) and "}" not in "".join(parts):
+            pieces = [tm.S(parts[0])]
+            ok = True
+            for a, post in zip(args, parts[1:]):
+                if isinstance(a, VT) and a.t.sort == STR:
+                    pieces.append(a.t)
+                elif isinstance(a, VT) and a.t.sort == INT:
+                    pieces.append(m_str(ex, st, fr, [a], {})[0][2].t)
+                elif isinstance(a, VObj) and a.kind == "Seq":
+                    pieces.append(ex.models.seq_text(st, a))
+                else:
+                    ok = False
+                    break
+                pieces.append(tm.S(post))
+            if ok:
+                return [(st, "ok", VT(tm.concat(*pieces)))]
     return [(st, "ok", VT(tm.fresh("fmt", STR)))]
 
 
@@ -795,6 +835,14 @@ def dm_get(ex, st, fr, self, args, kwargs):
                 if isinstance(kk, str):
                     r = tm.ite(tm.eq(k.t, tm.S(kk)), v.t, r)
             return [(st, "ok", VT(r))]
+        # otherwise: one outcome per constant key, and the default when none applies
+        res, none = [], []
+        for kk, v in items.items():
+            if isinstance(kk, str):
+                res.append((st.assume(tm.eq(k.t, tm.S(kk)), *none), "ok", v))
+                none.append(tm.ne(k.t, tm.S(kk)))
+        res.append((st.assume(*none), "ok", default))
+        return res
     raise Unsupported("dict.get with key %r" % (k,))
 
 
